@@ -3,7 +3,7 @@
    the ocaml/gen directory by tools/build_model.sh so that model.ml lands there. *)
 From Coq Require Import Extraction ExtrOcamlBasic ExtrOcamlString.
 From QSX Require Import Base.QSum LP.ILP LP.Cert LP.User LP.OptTest LP.Driver.
-From QSX Require Import LP.Transform LP.TransformBounds Float.Conv LP.Codes LP.LibSolution.
+From QSX Require Import LP.Transform LP.TransformBounds LP.TransformSlack Float.Conv LP.Codes LP.LibSolution.
 From QSX Require Import Fac.Gauss Fac.Basis Fac.Factor.
 From QSX Require Import IO.Num IO.Equiv IO.Bounds IO.Bas IO.Sol.
 From QSX Require Import Store.Spec Store.Api.
@@ -20,7 +20,7 @@ Extraction "model.ml"
   to_internal ilp_eqb wf_ulp
   opt_test infeas_test wf_logicals
   exact_solver_gen exact_solver
-  neg_obj scale_row_lp dup_row add_redundant split_eq perm_rows is_perm subst_vars perm_cols bound_to_row
+  neg_obj scale_row_lp dup_row add_redundant split_eq perm_rows is_perm subst_vars perm_cols bound_to_row add_slack
   to_double ulp_of
   lib_solution internal_min
   lpstat_of_code code_of_lpstat col_bstat_of_code row_bstat_of_code max_levels
